@@ -338,7 +338,9 @@ func c14Truncate(c *vlib.Ctx) {
 						want++
 					}
 				}
-				det := func() map[string]any { return c14Detail(f, fmt.Sprintf("cut at offset %d of %d via %s", k, len(f.Bytes), apiNames[api])) }
+				det := func() map[string]any {
+					return c14Detail(f, fmt.Sprintf("cut at offset %d of %d via %s", k, len(f.Bytes), apiNames[api]))
+				}
 				switch {
 				case pi != nil:
 					c.Violation(pi.Key, fmt.Sprintf("reader panicked on a file cut at offset %d: %s", k, pi.Value), det())
@@ -373,7 +375,13 @@ func c14Truncate(c *vlib.Ctx) {
 			c.NonTrivial(vlib.HashBytes(f.Bytes))
 		}
 		if c.WantSample() && len(f.Pkts) >= 2 {
-			c.Sample(map[string]any{"kind": f.Kind.String(), "packets": len(f.Pkts), "bytes": len(f.Bytes), "offsets": len(f.Bytes) + 1, "packet_end_offsets": func() []int { var e []int; for _, p := range f.Pkts { e = append(e, p.End) }; return e }()})
+			c.Sample(map[string]any{"kind": f.Kind.String(), "packets": len(f.Pkts), "bytes": len(f.Bytes), "offsets": len(f.Bytes) + 1, "packet_end_offsets": func() []int {
+				var e []int
+				for _, p := range f.Pkts {
+					e = append(e, p.End)
+				}
+				return e
+			}()})
 		}
 		c.End()
 	}
